@@ -113,6 +113,75 @@ def pstep (c : PConfig) : PMove → Option PConfig
 def pnext (c : PConfig) (m : PMove) : PConfig := (pstep c m).getD c
 def prun (c : PConfig) (sched : List PMove) : PConfig := sched.foldl pnext c
 
+/-! ### ids as the callers spell them
+
+`Collection.Update`, `Collection.Delete` and `Collection.PullID` first run the caller's id through the
+collection's id interceptor (`c.idInterceptor`; the identity when none is configured): the item is stored,
+and every event about it is published, under the intercepted id. -/
+
+/-- the event `Collection.Update(raw, …)` / `Collection.Delete(raw)` publishes on the bus -/
+def changeOf (icpt : Nat → Nat) (raw : Nat) (remove : Bool) (tag : Nat) : Msg := ⟨icpt raw, remove, tag⟩
+
+/-- the id `Collection.PullID(ctx, raw)` compares the events of its inner `Pull` with -/
+def pullIDTarget (icpt : Nat → Nat) (raw : Nat) : Nat := icpt raw
+
+/-! ### a consumer that ranges over the channel
+
+The generated gRPC `Pull…` handlers of the trait models are `for change := range model.Pull…(ctx) { send }`:
+they do not look at the context themselves and return only when the channel is closed. -/
+
+structure RConfig where
+  p : PConfig
+  hDone : Bool := false        -- the handler has returned
+
+inductive RMove
+  | pipe (m : PMove)           -- a step of the subscription or its environment (`consume` = one loop iteration)
+  | hExit                      -- `range` sees the close: the handler returns
+
+def rstep (h : RConfig) : RMove → Option RConfig
+  | .pipe m =>
+    if m = .consume ∧ h.hDone = true then none    -- a handler that has returned does not receive
+    else (pstep h.p m).map fun p' => { h with p := p' }
+  | .hExit =>
+    if h.hDone = false ∧ h.p.outClosed = true ∧ (if h.p.hasPid then h.p.pidQ = [] else h.p.fwQ = []) then
+      some { h with hDone := true }
+    else none
+
+/-! ### a trait-model adapter
+
+`onoffpb.Model.PullOnOff` and its siblings: a goroutine that ranges over the `pkg/resource` channel and hands each
+change, converted, to the subscriber on a channel of its own.  After fix aa57613 that hand-over is
+`select { case <-ctx.Done(): return; case send <- change: }` (`watchesCtx = true`); before, it was a bare
+`send <- change`. -/
+
+structure AConfig where
+  p : PConfig
+  watchesCtx : Bool
+  hold : Bool := false         -- the adapter has a change in hand and offers it to the subscriber
+  aDone : Bool := false        -- the adapter goroutine has returned (its channel is closed)
+
+inductive AMove
+  | pipe (m : PMove)           -- a step of the underlying subscription or its environment (not `consume`)
+  | aRecv                      -- the adapter receives one change from the pkg/resource channel
+  | aSend                      -- the subscriber receives the change the adapter offers
+  | aExitIn                    -- `range` sees the close
+  | aExitCtx                   -- the `ctx.Done()` case of the hand-over
+
+def astep (a : AConfig) : AMove → Option AConfig
+  | .pipe m => if m = .consume then none else (pstep a.p m).map fun p' => { a with p := p' }
+  | .aRecv =>
+    if a.aDone = false ∧ a.hold = false then (pstep a.p .consume).map fun p' => { a with p := p', hold := true }
+    else none
+  | .aSend => if a.aDone = false ∧ a.hold = true then some { a with hold := false } else none
+  | .aExitIn =>
+    if a.aDone = false ∧ a.hold = false ∧ a.p.outClosed = true ∧
+        (if a.p.hasPid then a.p.pidQ = [] else a.p.fwQ = []) then some { a with aDone := true }
+    else none
+  | .aExitCtx =>
+    if a.watchesCtx = true ∧ a.aDone = false ∧ a.hold = true ∧ a.p.cancelled = true then
+      some { a with aDone := true, hold := false }
+    else none
+
 /-- termination measure: one unit per live goroutine plus, per held message, its distance to the exit -/
 def pmu (c : PConfig) : Nat :=
   (if c.hasEx && !c.exDone then 1 + 3 * c.exQ.length else 0) +
